@@ -132,10 +132,11 @@ impl Compiler {
 
     /// Expr::Bool: one opcode, True for ja and False for nee
     fn arm_bool(&mut self, value: &bool) -> (r: Result<(), Error>)
+        requires gen_inv(*old(self))
         ensures
             //@VACUITY
             r is Ok, final(self).instructions@ == old(self).instructions@.push(opcode_byte(if *value { OpCode::True } else { OpCode::False })),
-            gen_inv(*old(self)) ==> gen_post(*old(self), *final(self), true),
+            r is Ok ==> gen_post(*old(self), *final(self), true),
     {
 //@ARM file=compiler.rs fn=compile_expression impl=Compiler arm="Expr::Bool" rules="R1;R4"
         proof {
@@ -150,6 +151,7 @@ impl Compiler {
     /// Expr::Int: `Const <slot>` where the slot holds exactly the literal's value; a literal outside the 61-bit
     /// range is an error and nothing is emitted
     fn arm_int(&mut self, value: &isize) -> (r: Result<(), Error>)
+        requires gen_inv(*old(self))
         ensures
             //@VACUITY
             !(MIN_INT <= *value <= MAX_INT) ==> (r is Err && final(self).instructions@ == old(self).instructions@),
@@ -162,7 +164,7 @@ impl Compiler {
                 &&& spec_tag(final(self).constants@[ci]) == Type::Int && spec_int(final(self).constants@[ci]) == *value
             }),
             forall|i: int| 0 <= i < old(self).constants@.len() ==> final(self).constants@[i] == old(self).constants@[i],
-            (r is Ok && gen_inv(*old(self))) ==> gen_post(*old(self), *final(self), true),
+            r is Ok ==> gen_post(*old(self), *final(self), true),
     {
 //@ARM file=compiler.rs fn=compile_expression impl=Compiler arm="Expr::Int" rules="R1;R4"
         proof {
